@@ -53,12 +53,16 @@ def gen_dag(rng):
                 t2 = rng.choice(els)[0]; deps.append(t2)
                 pos = [('xy', '%s %s' % (fmt(dy(rng, -20, 40)), fmt(dy(rng, -20, 40))))]
                 size = [('wh', '#%s%s' % (t2, rng.choice(['', ' 50%', ' 2'])))]
+                if rng.chance(0.5):      # a size delta on top of a size that is itself a reference
+                    size.append(rng.choice([('dwh', '4 2'), ('dw', '3'), ('dh', '-1'), ('dwh', '150%')]))
             else:
                 ts = rng.sample([e[0] for e in els], rng.range(1, min(3, len(els))))
                 deps += ts
                 pos = [('surround', ' '.join('#' + x for x in ts))] + ([('margin', rng.choice(['1', '2 3', '10%']))] if rng.chance(0.5) else [])
                 size = [] if name == 'rect' else size[:0]
                 name = 'rect'
+        if name == 'rect' and size and not any(k.startswith('d') for k, _ in size) and rng.chance(0.12):
+            size = size + [rng.choice([('dwh', '2 1'), ('dw', '1.5'), ('dh', '2')])]
         attrs = [('id', eid)] + pos + size
         if rng.chance(0.2):
             attrs.append(('class', 'c%d' % i))
@@ -156,6 +160,20 @@ def run(ctx):
         dist[unsat or 'dag%d' % n] = dist.get(unsat or 'dag%d' % n, 0) + 1
     impl = lib.run_impl(cases, timeout_ms=20000)
     byid = {c.id: c for c in cases}
+    # the composed Coq model of the unchanged transform on the same documents: K3 is a property of the recorded semantics, so an
+    # order dependence is explained by K3 only where the model shows exactly the same output as the implementation
+    import doccorr
+    model = {}
+    if ctx.get('model_ok'):
+        mc = [doccorr.cases(0, c.meta['doc'], {})[1] for c in cases]
+        for c, m in zip(cases, mc):
+            m.id = c.id
+        model = lib.run_model(mc, shards=12)
+    def as_model(i):
+        if not model:
+            return True
+        a, b = impl.get(i), model.get(i)
+        return bool(a and b and a[0] == b[0] and (a[0] != 'OK' or a[1] == b[1]))
     for els, unsat, ids in groups:
         st['evaluations'] += len(ids)
         if any(e[3] for e in els):
@@ -187,8 +205,8 @@ def run(ctx):
                     diff = '; '.join('%s: %s vs %s' % (k, ref[1].get(k), g[1].get(k)) for k in sorted(set(ref[1]) | set(g[1])) if ref[1].get(k) != g[1].get(k))[:600]
                 yield {'kind': 'oracle', 'what': 'geometry depends on document order: order %s of %s differs from order %s (%s)' % (c.meta['order'], c.meta['doc'][:500], first.meta['order'], diff or (g[0], ref[0])),
                        'case': c.to_json(), 'observed': g[1] if g[0] == 'ERR' else diff, 'expected': 'same geometry as ' + first.meta['doc'][:500],
-                       'k3': k3_config(els, c.meta['order']) and g[0] == 'OK'}    # K3 explains a silent wrong result, never a failure
-                if not (k3_config(els, c.meta['order']) and g[0] == 'OK'):
+                       'k3': k3_config(els, c.meta['order']) and g[0] == 'OK' and as_model(i) and as_model(ids[0])}    # K3 explains a silent wrong result, never a failure
+                if not (k3_config(els, c.meta['order']) and g[0] == 'OK' and as_model(i) and as_model(ids[0])):
                     break
         if len(st['samples']) < 3:
             st['samples'].append({'doc': first.meta['doc'][:400], 'orders': len(ids), 'result': ref[0]})
